@@ -218,4 +218,109 @@ theorem first_read (E : Env) (w : World) (i : Nat) (n : Name) (o : Inst) (td : T
       ⟨_, by unfold Attr.step; rw [hg, hnp]⟩
     simp only [World.step, World.onAttr, hi, ht, h1]
 
+/-! ### A default factory that raises -/
+
+/-- The default kinds that call user code: `factory(*args, **kw)` and `_name_default(self)`
+(also `Tuple` / `Union` / … `_get_default_value`). -/
+def callsUser (t : TraitCore) : Prop :=
+  t.dvt = Generated.CALLABLE_AND_ARGS_DEFAULT_VALUE ∨ t.dvt = Generated.CALLABLE_DEFAULT_VALUE
+
+/-- What the user callable is called with: nothing (`None` here) or the object. -/
+def factoryArg (t : TraitCore) (self : Id) : Id :=
+  if t.dvt = Generated.CALLABLE_AND_ARGS_DEFAULT_VALUE then noneId else self
+
+/-- The exception the caller of the read sees when the default computation raised `e`:
+`e` itself, except that an `AttributeError` is replaced by the `UserWarning` Traits issues
+about it when warnings are errors (`_warn_on_attribute_error`). -/
+def surfaced (E : Env) (e : Exc) : Exc :=
+  if e = .attributeError ∧ E.warnError = true then .other else e
+
+theorem warn_error (E : Env) (e : Exc) : warnOnAttributeError E (.error e) = .error (surfaced E e) := by
+  unfold warnOnAttributeError surfaced
+  cases e <;> simp
+  cases E.warnError <;> simp
+
+theorem defaultValueFor_raises (E : Env) (t : TraitCore) (obj : Id) (name : Name) (c : Ctx) (e : Exc)
+    (hu : callsUser t)
+    (hr : E.factory (t.dv.getD noneId) c.fcalls.length (factoryArg t obj) = .error e) :
+    defaultValueFor E t obj name c =
+      (.error (surfaced E e), { c with fcalls := c.fcalls ++ [(t.dv.getD noneId, obj, name)] }) := by
+  unfold factoryArg at hr
+  rcases hu with h | h
+  · simp only [h, if_true] at hr
+    unfold defaultValueFor callFactory
+    simp (config := { decide := true }) only [h, hr, warn_error, if_true, if_false]
+  · have hne : ¬ (Generated.CALLABLE_DEFAULT_VALUE = Generated.CALLABLE_AND_ARGS_DEFAULT_VALUE) := by decide
+    simp only [h, hne, if_false] at hr
+    unfold defaultValueFor callFactory
+    simp (config := { decide := true }) only [h, hr, warn_error, if_true, if_false]
+
+theorem defaultValueFor_user_fcalls (E : Env) (t : TraitCore) (obj : Id) (name : Name) (c : Ctx)
+    (hu : callsUser t) :
+    (defaultValueFor E t obj name c).2.fcalls = c.fcalls ++ [(t.dv.getD noneId, obj, name)] := by
+  rcases hu with h | h
+  · unfold defaultValueFor
+    simp (config := { decide := true }) only [h, if_true, if_false]
+    exact (callFactory_frame E _ obj name noneId c).2
+  · unfold defaultValueFor
+    simp (config := { decide := true }) only [h, if_true, if_false]
+    have h1 := (callFactory_frame E (t.dv.getD noneId) obj name obj c).2
+    cases hc : callFactory E (t.dv.getD noneId) obj name obj c with
+    | mk r c1 =>
+      rw [hc] at h1
+      cases r with
+      | error e => exact h1
+      | ok v => exact ((validateDefault_frame E t v c1).2).trans h1
+
+/-- A read whose default factory raises, and the retry. -/
+theorem default_raises (E : Env) (t : TraitCore) (s : OSt) (e : Exc)
+    (hk : t.kind = .trait) (hu : callsUser t) (hs : s.slot = none)
+    (hr : E.factory (t.dv.getD noneId) s.ctx.fcalls.length (factoryArg t s.self) = .error e) :
+    step E t s .get =
+      ({ exc := some (surfaced E e) },
+       { s with ctx := { s.ctx with fcalls := s.ctx.fcalls ++ [(t.dv.getD noneId, s.self, s.name)] } })
+    ∧ (t.post = none →
+        ∀ s1 : OSt, s1 = { s with ctx := { s.ctx with fcalls := s.ctx.fcalls ++ [(t.dv.getD noneId, s.self, s.name)] } } →
+        (step E t s1 .get).2.ctx.fcalls =
+          s.ctx.fcalls ++ [(t.dv.getD noneId, s.self, s.name), (t.dv.getD noneId, s.self, s.name)]
+        ∧ (∀ v, (defaultValueFor E t s.self s.name s1.ctx).1 = .ok v →
+            (step E t s1 .get).1 = { val := some v } ∧ (step E t s1 .get).2.slot = some v)
+        ∧ (∀ e2, (defaultValueFor E t s.self s.name s1.ctx).1 = .error e2 →
+            (step E t s1 .get).1 = { exc := some e2 } ∧ (step E t s1 .get).2.slot = none)) := by
+  constructor
+  · unfold step getattro traitGetattr getattrTrait
+    simp only [hs, hk, ost_defaultValueFor_eq, defaultValueFor_raises E t s.self s.name s.ctx e hu hr]
+  · intro hp s1 hs1
+    have hslot : s1.slot = none := by rw [hs1]; exact hs
+    have hself : s1.self = s.self := by rw [hs1]
+    have hname : s1.name = s.name := by rw [hs1]
+    have hfc : s1.ctx.fcalls = s.ctx.fcalls ++ [(t.dv.getD noneId, s.self, s.name)] := by rw [hs1]
+    have hnp := getattrTrait_nopost E t s1 hp
+    rw [hself, hname] at hnp
+    have hg : step E t s1 .get =
+        (match getattrTrait E t s1 with
+        | (.ok v, s') => (({ val := some v } : Res), s')
+        | (.error e, s') => ({ exc := some e }, s')) := by
+      unfold step getattro traitGetattr
+      simp only [hslot, hk]
+      cases getattrTrait E t s1 with
+      | mk r s' => cases r <;> rfl
+    rw [hg, hnp]
+    have hfc2 := defaultValueFor_user_fcalls E t s.self s.name s1.ctx hu
+    cases hd : (defaultValueFor E t s.self s.name s1.ctx).1 with
+    | error e2 =>
+      refine ⟨?_, fun v hv => (by cases hv), fun e3 he3 => ?_⟩
+      · show (defaultValueFor E t s.self s.name s1.ctx).2.fcalls = _
+        rw [hfc2, hfc, List.append_assoc]; rfl
+      · injection he3 with he3
+        subst he3
+        exact ⟨rfl, hslot⟩
+    | ok v =>
+      refine ⟨?_, fun v2 hv2 => ?_, fun e3 he3 => (by cases he3)⟩
+      · show (defaultValueFor E t s.self s.name s1.ctx).2.fcalls = _
+        rw [hfc2, hfc, List.append_assoc]; rfl
+      · injection hv2 with hv2
+        subst hv2
+        exact ⟨rfl, rfl⟩
+
 end TraitsVerif.Model.Attr
